@@ -30,7 +30,7 @@ func init() {
 
 const liftS = 4 // the small forest lives below row 4: at most 15 leaves
 
-var liftMs = []uint64{1<<27 | 1, 1 << 28, 1<<36 + 5, 1<<58 + 1<<40 + 1}
+var liftMs = []uint64{1<<27 | 1, 1 << 28, 1<<36 + 5, 1<<58 + 1<<40 + 1, 1<<36 - 1} // (the last one: 36 high trees)
 
 func (r *Runner) replayLift(l *Line) lineResult {
 	steps := append(append([]Step{}, l.Hist...), l.Step)
